@@ -163,3 +163,39 @@ func ReadStruct(s *ref.Struct, rv reflect.Value) *ref.Val {
 	}
 	return v
 }
+
+// NewSpare is New, except that every list/set is given spare capacity that
+// holds live sentinel elements, so that writes beyond len can be observed.
+func NewSpare(s *ref.Struct, v *ref.Val) reflect.Value {
+	p := New(s, v)
+	addSpare(&ref.Type{Kind: ref.KStruct, St: s}, p.Elem(), v)
+	return p
+}
+
+func addSpare(t *ref.Type, rv reflect.Value, v *ref.Val) {
+	if v == nil {
+		return
+	}
+	if t.Ptr {
+		rv = rv.Elem()
+	}
+	switch t.Kind {
+	case ref.KStruct:
+		for i, f := range t.St.Fields {
+			addSpare(f.Type, rv.Field(f.GoIdx), v.F[i])
+		}
+	case ref.KList, ref.KSet:
+		if v.Nil {
+			return
+		}
+		n := len(v.L)
+		sl := reflect.MakeSlice(rv.Type(), n+2, n+2)
+		reflect.Copy(sl, rv)
+		sl.Index(n).Set(Build(t.Elem, Nth(t.Elem, 41)))
+		sl.Index(n + 1).Set(Build(t.Elem, Nth(t.Elem, 42)))
+		rv.Set(sl.Slice3(0, n, n+2))
+		for i, e := range v.L {
+			addSpare(t.Elem, rv.Index(i), e)
+		}
+	}
+}
